@@ -27,6 +27,15 @@ What is proved here about the model (Model.Lexer, Model.Parser, Model.Actions ov
     two nodes built by the action take their comments from the same slot (incl. the `wrap` of for-clauses);
     with each shifted token being a leaf of exactly one production instance (Proofs.LRSound.run_sound) a token's
     comments reach at most one node.  `actions_never_read_comments`: no action copies a `comments` attribute.
+  * ON THE FINAL TREE (ghost derivation trees, Proofs/NodePosGhost `reach_ginv`, relation `CRel`):
+    `comments_attached_once` — for every accepted text, the `@comments` attributes of the tree are, up to order and with
+    multiplicity, among `set_comments` of the SHIFTED tokens (each token's comments reach at most one node; table facts
+    `action_slots_used_once`, `actions_read_plain_attributes`, `actions_never_read_comments`);
+    `shifted_comments_are_source_comments` — every comment of every shifted token is `CommentOK` (invariant of the
+    parser-driven token source through `token` / `auto_semi` / `backtracked_token` / `p_error`);
+    `comments_faithful` — the two combined, in reader's form (children = the token's hidden comments, in order).
+    `comments_in_source_order_partial` — source order within a node and disjointness across tokens, from the hypothesis
+    `ShiftedOrdered` (NOT proved for whole runs; see its docstring).
  PRINTING
   * `line_comment_followed_by_newline` (kernel decision over Gen.Defs / Gen.Rules) — in every definition a LineComment /
     BlockComment token is immediately followed by the Newline marker, and in every rule set that prints comments this
@@ -40,6 +49,8 @@ What is proved here about the model (Model.Lexer, Model.Parser, Model.Actions ov
 import CalmVerif.Proofs.CommentsParser
 import CalmVerif.Proofs.CommentsFull
 import CalmVerif.Proofs.CommentsWitness
+import CalmVerif.Proofs.CommentsFinal
+import CalmVerif.Props.C03
 import CalmVerif.Proofs.CommentsFaithful
 import CalmVerif.Proofs.CommentsTable
 import CalmVerif.Proofs.CommentsActions
@@ -178,6 +189,73 @@ theorem no_comment_attached_twice : noSlotTwice Gen.Actions.actions = true := by
 /-- non-vacuity: the check rejects an action that anchors two nodes at the same slot -/
 example : noSlotTwice [{ default := [], probed := true, exceptions := [], result := .node "A" [("x", .node "B" [] (.at 1 0) [] [] none)] (.at 1 0) [] [] none }] = false := by
   decide
+
+/-! ## faithfulness on the final tree -/
+
+/-- D: in every production, for every value shape, the value of a slot is used at most once and at most one node is
+    anchored at a slot (subsumes `no_comment_attached_twice`) -/
+theorem action_slots_used_once : refsOnce Gen.Actions.actions = true := by
+  decide +kernel
+
+/-- D: the attributes semantic actions read from their arguments are plain (no `@…` metadata) -/
+theorem actions_read_plain_attributes : plainRead Gen.Actions.actions = true := by
+  decide +kernel
+
+theorem table_ok : TableOK Gen.Actions.actions :=
+  ⟨actions_never_read_comments, actions_read_plain_attributes, action_slots_used_once⟩
+
+/-- T: for every text the model accepts with capture, the `@comments` attributes of the tree (`cms`: the Comments node of
+    every node of the tree, in document order) are — up to order and WITH multiplicity (`<+~`, sub-permutation) — among
+    `set_comments` of the tokens the driver shifted: every attached Comments node is `Node.set_comments` of a shifted
+    token, and no shifted token's comments are attached to two nodes of the tree. -/
+theorem comments_attached_once (text : List Char) (v : Actions.PVal) (h : Parser.parse text true = .accepted v) :
+    List.Subperm (cms v.v) (hiddenCms (shiftedTokens Grammar.cached text true)) :=
+  attached_once C03.tables_valid table_ok text true v h
+
+/-- T: every comment carried by a token the driver shifted is a comment token of the source (`CommentOK`): a LINE_COMMENT /
+    BLOCK_COMMENT lexeme of the first matching lexer rule, verbatim at its recorded offset — through `token`,
+    `auto_semi`, `backtracked_token` and `p_error`, for every text -/
+theorem shifted_comments_are_source_comments (text : List Char) (wc : Bool) :
+    ∀ t ∈ shiftedTokens Grammar.cached text wc, ∀ c ∈ t.hidden, CommentOK text c :=
+  shifted_ok Grammar.cached text wc
+
+/-- T `comments_faithful`: every `@comments` attribute `C` anywhere in the tree accepted by `parse text true` is
+    `set_comments` of a shifted token `t` all of whose hidden comments are comment tokens of the source; `C` is a Comments
+    node with one child per hidden comment of `t`, in the order of the hidden list, carrying the comment's text (verbatim
+    at its recorded offset by `comment_ok_verbatim`) and its recorded position. -/
+theorem comments_faithful (text : List Char) (v : Actions.PVal) (h : Parser.parse text true = .accepted v) :
+    ∀ C ∈ cms v.v, ∃ t ∈ shiftedTokens Grammar.cached text true,
+      (∀ c ∈ t.hidden, CommentOK text c) ∧
+      ∃ kids p0, C = .node "Comments" [("children", .list kids), ("@pos", p0), ("@tokmap", .list [])] ∧
+        kids.map (fun k => (k.attr? "value", k.attr? "@pos")) =
+          t.hidden.map (fun c => (some (Val.str (String.ofList c.value)),
+            some (Actions.posVal c.lexpos c.lineno c.colno))) := by
+  intro C hC
+  have hmem := (comments_attached_once text v h).subset hC
+  simp only [hiddenCms, List.mem_filterMap] at hmem
+  obtain ⟨t, ht, hCt⟩ := hmem
+  have hok := shifted_comments_are_source_comments text true t ht
+  exact ⟨t, ht, hok, commentsOf_children hok hCt⟩
+
+/-- T (partial): source order within a node and disjointness across nodes, from the hypothesis `ShiftedOrdered` (the
+    comments of the shifted tokens, in token order, are in source order and pairwise disjoint — true of every single
+    `token()` call by `comments_faithful_lexer`, not carried through `backtracked_token` for whole runs): then the hidden
+    list of every shifted token — hence the children of every attached Comments node (`comments_faithful`) — is in source
+    order, and the comments of two different shifted tokens never overlap, so with `comments_attached_once` no source
+    comment occurrence is attached to two nodes. -/
+theorem comments_in_source_order_partial (text : List Char) (hord : ShiftedOrdered Grammar.cached text true) :
+    (∀ t ∈ shiftedTokens Grammar.cached text true,
+      t.hidden.Pairwise (fun a b => a.lexpos + a.value.length ≤ b.lexpos)) ∧
+    (shiftedTokens Grammar.cached text true).Pairwise (fun t₁ t₂ => ∀ a ∈ t₁.hidden, ∀ b ∈ t₂.hidden,
+      a.lexpos + a.value.length ≤ b.lexpos) :=
+  (shiftedOrdered_iff Grammar.cached text true).mp hord
+
+/-- non-vacuity (kernel evaluation): on `/*x*/a+/*y*/b` the accepted tree has two `@comments` attributes, the driver
+    shifted tokens carrying two comment lists, and the hypothesis of the partial theorem holds -/
+example : (accTree (Parser.parse "/*x*/a+/*y*/b".toList true)).map (fun t => (cms t).length) = some 2 ∧
+    (hiddenCms (shiftedTokens Grammar.cached "/*x*/a+/*y*/b".toList true)).length = 2 ∧
+    ((shiftedTokens Grammar.cached "/*x*/a+/*y*/b".toList true).flatMap (·.hidden)).map (·.lexpos) = [0, 7] := by
+  decide +kernel
 
 /-! ## printing -/
 
